@@ -611,6 +611,10 @@ func (ctx *Context) evaluate() {
 				stackPush(NewIntVal(100))
 			}
 
+			if ctx.parser == nil || len(details) == 0 {
+				// 预编译的函数体没有parser(无原文)，其计算过程也不会被使用，无需改写
+				break
+			}
 			d := &details[len(details)-1]
 			dText := string(ctx.parser.data[d.Begin:d.End])
 
